@@ -152,6 +152,7 @@ type Task struct {
 	readSet  map[string]string // resource/ns/name -> resourceVersion read during the current sync
 	syncItem string
 	ctrlName string
+	syncStart time.Time
 }
 
 func (t *Task) String() string { return t.id }
@@ -206,6 +207,23 @@ type Sim struct {
 	curCall   *APICall
 	CapHit    bool
 	Armed     map[string]bool
+	lastReleased *Task
+	pendingGrace map[*Task]*int64
+}
+
+// noteGrace remembers the grace period of the delete call the current task is
+// about to issue.
+func (s *Sim) noteGrace(p *Proc, g *int64) {
+	t := s.curTask(p, "delete")
+	if t == nil {
+		return
+	}
+	s.mu.Lock()
+	if s.pendingGrace == nil {
+		s.pendingGrace = map[*Task]*int64{}
+	}
+	s.pendingGrace[t] = g
+	s.mu.Unlock()
 }
 
 func (s *Sim) decideFault(p *Proc, c *APICall) string {
@@ -328,6 +346,13 @@ func (s *Sim) curTask(p *Proc, desc string) *Task {
 	t := s.byGid[gid]
 	if t == nil {
 		t = &Task{id: "anon:" + desc, proc: p, gid: gid, resume: make(chan resumeMsg), anon: true}
+		// goroutines spawned by a worker act on behalf of that worker's sync.
+		if par := s.lastReleased; par != nil && par.proc == p {
+			t.readSet = par.readSet
+			t.syncStart = par.syncStart
+			t.ctrlName = par.ctrlName
+			t.id = "anon:" + par.id + ":" + desc
+		}
 		s.byGid[gid] = t
 	}
 	return t
@@ -380,6 +405,9 @@ func (s *Sim) park(t *Task, kind, desc string, enabled bool) resumeMsg {
 func (s *Sim) release(t *Task, msg resumeMsg) {
 	s.mu.Lock()
 	t.parked = false
+	if !t.anon {
+		s.lastReleased = t
+	}
 	s.mu.Unlock()
 	t.resume <- msg
 	synctest.Wait()
